@@ -218,9 +218,10 @@ UNIT = {
         dict(file=EXM, kind="fn", name="response_key", container="Field", container_name="Field", wrap="impl Field", props=["C26"],
              clauses=[("ensures", "alias_else_name", "r.key() == response_key_of(*self)")]),
         dict(file=EXE, kind="fn", name="collect_fields", props=["C26"], n_loops=1, no_decreases=True,
+             inline_helpers=["eval_if_arg", "does_fragment_type_apply"],
              rewrites=[("selections: impl IntoIterator<Item = &'a Selection>,", "selections: &'a Vec<Selection>,", 1),
                        ("for selection in selections {", "let mut __i: usize = 0; while __i < selections.len() { let selection = &selections[__i]; __i += 1;", 1),
-                       ("SKIP_DIRECTIVE_NAME", '"skip"', 1), ("INCLUDE_DIRECTIVE_NAME", '"include"', 1),
+                       ("SKIP_DIRECTIVE_NAME", '"skip"', None), ("INCLUDE_DIRECTIVE_NAME", '"include"', None),
                        (r"grouped_fields\s*\.entry\(([^()]*\(\))\)\s*\.or_default\(\)\s*\.push\(([^()]*\(\))\)", r"grouped_fields.entry_push(\1, \2)", 1, "re")],
              clauses=[("ensures", "context_untouched", "*final(ctx) == *old(ctx)"),
                       ("ensures", "visited_only_grows", "old(visited_fragments)@.subset_of(final(visited_fragments)@)"),
